@@ -66,6 +66,17 @@ def decide_equal(pairs, label, timeout=20, rng=None, assume=(), counters=None, t
         return "structural", None
     rng = rng or np.random.default_rng(0)
     names = sorted(sym.support(*[a for a, _ in diff], *[b for _, b in diff]))
+    opaque = opaque_prefix is not None and any(n.startswith(opaque_prefix) for n in names)
+    for trial in range(0 if opaque else 3):
+        env = sample_env(names, rng)
+        va = sym.evalf([a for a, _ in diff], env); vb = sym.evalf([b for _, b in diff], env)
+        for x, y in zip(va, vb):
+            if isinstance(x, bool) or isinstance(y, bool):
+                if x != y: return "differs", env
+                continue
+            if (math.isnan(x) != math.isnan(y)) or (not math.isnan(x) and abs(x - y) > tol * (1 + abs(x) + abs(y))):
+                cnt("pairs_numeric_diff")
+                return "differs", env
     # 1) congruence descent to small frontier lemmas (sufficient, not necessary)
     fr = frontier(diff, resolver)
     cnt("frontier_pairs", len(fr))
@@ -84,17 +95,6 @@ def decide_equal(pairs, label, timeout=20, rng=None, assume=(), counters=None, t
                 ok = False; break
         if ok:
             return "unsat", None
-    opaque = opaque_prefix is not None and any(n.startswith(opaque_prefix) for n in names)
-    for trial in range(0 if opaque else 3):
-        env = sample_env(names, rng)
-        va = sym.evalf([a for a, _ in diff], env); vb = sym.evalf([b for _, b in diff], env)
-        for x, y in zip(va, vb):
-            if isinstance(x, bool) or isinstance(y, bool):
-                if x != y: return "differs", env
-                continue
-            if (math.isnan(x) != math.isnan(y)) or (not math.isnan(x) and abs(x - y) > tol * (1 + abs(x) + abs(y))):
-                cnt("pairs_numeric_diff")
-                return "differs", env
     q = smt.Query(label, flatten_div=True)
     for n in names:
         q.declare(n)
